@@ -316,7 +316,8 @@ async fn scenario(case: &Value) -> Value {
             json!({"sid": sid, "kind": f.get("stream_kind").cloned().unwrap_or(Value::Null), "type": f["type"], "seq": f["seq"],
                    "r": f.get("run_session_id").cloned().unwrap_or(Value::Null),
                    "m": if f["type"] == "continuity_message_appended" { f["id"].clone() } else { f.get("message_id").cloned().unwrap_or(Value::Null) },
-                   "j": f.get("job_id").cloned().unwrap_or(Value::Null)})
+                   "j": f.get("job_id").cloned().unwrap_or(Value::Null),
+                   "st": if f["type"] == "tool_task_status" { f.get("status").cloned().unwrap_or(Value::Null) } else { Value::Null }})
         })
         .collect();
     let foreign = log_raw.iter().filter(|f| !kinds.contains_key(f["stream_id"].as_str().unwrap_or(""))).count();
